@@ -10,7 +10,7 @@ N-RET    ``t = E; return t``  ->  ``return E``     (t a plain local name assigne
          other observer)
 N-NOT    ``if not c: A else: B``  ->  ``if c: B else: A``  and  ``x if not c else y`` -> ``y if c else x``
          (no elif chain is reordered: only a plain else is swapped)
-N-IFEXP  ``return a if c else b`` -> ``if c: return a / else: return b``; ``x = a if c else b`` likewise
+N-IFEXP  ``return a if c else b`` -> ``if c: return a / else: return b``; ``x = a if c else b`` (also ``x: T = ...``) likewise
          (when the conditional expression is the whole right-hand side); also ``return f(x, k=a if c else b)`` ->
          ``if c: return f(x, k=a) / else: return f(x, k=b)`` (a direct argument of the returned / assigned call, test
          without calls or subscripts, so that evaluating it before the other arguments cannot be observed)
@@ -36,7 +36,8 @@ N-PROP   inside a class, a read of a PRIVATE property ``self._p`` whose body is 
          ``self`` and builtins) is replaced by ``E`` in the other methods of the class (what the read evaluates to; a
          subclass overriding a private property of its base is not considered)
 N-WALRUS ``if (x := E) is not None:``  ->  ``x = E; if x is not None:`` (assignment expression that is the first thing the
-         test evaluates)
+         test evaluates: the test itself, under ``not``, the left operand of its comparison, or the first operand of an
+         ``and`` / ``or`` - applied again after N-IFEXP, so ``v = a if (x := E) ... else b`` is covered)
 N-SUPPRESS ``with contextlib.suppress(E): BODY``  ->  ``try: BODY / except E: pass`` (what the context manager does)
 N-CMP    ``K == x`` -> ``x == K`` for a literal K (same for ``!=``); for two non-literal operands the
          operand with the smaller source text goes left.  ``==``/``!=`` of the objects this package
@@ -75,6 +76,17 @@ def _pure(e: ast.AST) -> bool:
         if isinstance(n, (ast.NamedExpr, ast.Await, ast.Yield, ast.YieldFrom)):
             return False
     return True
+
+
+class _ListSlot:
+    """Assignable view of one element of a list of AST nodes (so that `setattr(holder, field, new)` works for it)."""
+
+    def __init__(self, items: list, index: int) -> None:
+        object.__setattr__(self, "_items", items)
+        object.__setattr__(self, "_index", index)
+
+    def __setattr__(self, name: str, value) -> None:
+        self._items[self._index] = value
 
 
 class _Normalizer(ast.NodeTransformer):
@@ -180,6 +192,7 @@ class _Normalizer(ast.NodeTransformer):
                         self._blocks(st, captured)
                 block = self._hoist_walrus(block)
                 block = [self._desugar_ifexp(st) for st in block]
+                block = self._hoist_walrus(block)  # `x = a if (y := E) ... else b` has just become an `if` statement
                 for st in block:  # the freshly made branches are blocks too (nothing to fold inside them)
                     pass
                 block = self._fold_test_temps(block, self._loads)
@@ -202,6 +215,11 @@ class _Normalizer(ast.NodeTransformer):
             e = st.value
             mk = lambda v: ast.copy_location(ast.Assign(targets=[ast.Name(id=st.targets[0].id, ctx=ast.Store())], value=v), st)  # noqa: E731
             return ast.copy_location(ast.If(test=e.test, body=[mk(e.body)], orelse=[mk(e.orelse)]), st)
+        if isinstance(st, ast.AnnAssign) and isinstance(st.value, ast.IfExp) and isinstance(st.target, ast.Name) and st.simple:
+            # `x: T = a if c else b`: the annotation of a local has no run-time effect
+            e = st.value
+            mk2 = lambda v: ast.copy_location(ast.AnnAssign(target=ast.Name(id=st.target.id, ctx=ast.Store()), annotation=st.annotation, value=v, simple=1), st)  # noqa: E731
+            return ast.copy_location(ast.If(test=e.test, body=[mk2(e.body)], orelse=[mk2(e.orelse)]), st)
         # N-IFEXP (argument): `return f(x, k=a if c else b)` -> `if c: return f(x, k=a) / else: return f(x, k=b)` (same for
         # `v = f(...)`), for a test without calls / subscripts: evaluating it before the other arguments is not observable
         value = st.value if isinstance(st, ast.Return) or (isinstance(st, ast.Assign) and len(st.targets) == 1 and isinstance(st.targets[0], ast.Name)) else None
@@ -235,8 +253,14 @@ class _Normalizer(ast.NodeTransformer):
             if isinstance(st, ast.If):
                 holder, field = st, "test"
                 node = st.test
-                while isinstance(node, ast.UnaryOp) and isinstance(node.op, ast.Not):
-                    holder, field, node = node, "operand", node.operand
+                while (isinstance(node, ast.UnaryOp) and isinstance(node.op, ast.Not)) or isinstance(node, ast.BoolOp):
+                    if isinstance(node, ast.BoolOp):
+                        # the first operand of `and` / `or` is evaluated first and always
+                        first = node.values[0]
+                        box = node.values
+                        holder, field, node = _ListSlot(box, 0), "value", first
+                    else:
+                        holder, field, node = node, "operand", node.operand
                 if isinstance(node, ast.Compare) and isinstance(node.left, ast.NamedExpr):
                     holder, field, node = node, "left", node.left
                 if isinstance(node, ast.NamedExpr) and isinstance(node.target, ast.Name):
